@@ -16,12 +16,13 @@ import (
 func init() { Registry["C02"] = runC02 }
 
 type c02Case struct {
-	Origin  string `json:"origin"`
-	Input   string `json:"input"`
-	Relaxed bool   `json:"relaxed"`
-	Thanos  bool   `json:"thanos"`
-	Team    bool   `json:"teamcity"`
-	Race    bool   `json:"race"`
+	Origin  string   `json:"origin"`
+	Input   string   `json:"input"`
+	Relaxed bool     `json:"relaxed"`
+	Thanos  bool     `json:"thanos"`
+	Team    bool     `json:"teamcity"`
+	Race    bool     `json:"race"`
+	Flags   []string `json:"flags,omitempty"` // extra `pint lint` flags (--require-owner, --show-duplicates)
 }
 
 func c02Config(relaxed, thanos bool) string {
@@ -129,6 +130,7 @@ func c02Check(c *core.Ctx, cs c02Case) c02Outcome {
 		TeamCity: cs.Team,
 		WantJSON: true, WantCS: true, WantDump: true,
 		Race:    cs.Race,
+		Args:    cs.Flags,
 		Timeout: 20 * time.Second,
 	}
 	res := RunLint(c, files, o)
@@ -411,6 +413,15 @@ func runC02(c *core.Ctx) int {
 	core.Parallel(len(jobs), 16, func(j int) {
 		jb := jobs[j]
 		cs := c02Case{Origin: origins[jb.idx], Input: inputs[jb.idx], Relaxed: jb.relaxed, Thanos: jb.thanos, Team: jb.team, Race: jb.race}
+		switch (jb.idx + j) % 4 {
+		case 1:
+			cs.Flags = []string{"--require-owner"}
+		case 2:
+			cs.Flags = []string{"--show-duplicates"}
+		case 3:
+			cs.Flags = []string{"--require-owner", "--show-duplicates"}
+		}
+		run.Count("runs_with_flags_"+strings.Join(cs.Flags, "_"), 1)
 		o := c02Check(c, cs)
 		run.Eval(1)
 		for _, v := range o.viol {
